@@ -5,20 +5,84 @@ go 1.25.0
 require github.com/aperturerobotics/bifrost v0.0.0
 
 require (
-	filippo.io/edwards25519 v1.2.0 // indirect
-	github.com/aperturerobotics/controllerbus v0.53.1 // indirect
+
+	github.com/aperturerobotics/abseil-cpp v0.0.0-20260131110040-4bb56e2f9017 // indirect
+	github.com/aperturerobotics/cli v1.1.0 // latest
+	github.com/aperturerobotics/common v0.32.3 // latest
+	github.com/aperturerobotics/controllerbus v0.53.1 // latest
+	github.com/aperturerobotics/entitygraph v0.11.0 // latest
+	github.com/aperturerobotics/go-multiaddr v0.16.2-0.20260312224838-f595884c2621 // master
+	github.com/aperturerobotics/go-protoc-wasi v0.0.0-20260329113540-600516012db3 // indirect
+	github.com/aperturerobotics/go-websocket v1.8.15-0.20260329113544-74dbfb8f11c6 // master
 	github.com/aperturerobotics/json-iterator-lite v1.0.1-0.20260223122953-12a7c334f634 // indirect
-	github.com/aperturerobotics/protobuf-go-lite v0.12.2 // indirect
-	github.com/aperturerobotics/util v1.33.1 // indirect
-	github.com/blang/semver/v4 v4.0.0 // indirect
-	github.com/klauspost/compress v1.18.5 // indirect
+	github.com/aperturerobotics/protobuf v0.0.0-20260203024654-8201686529c4 // indirect; wasi
+	github.com/aperturerobotics/protobuf-go-lite v0.12.2 // latest
+	github.com/aperturerobotics/starpc v0.49.3 // latest
+	github.com/aperturerobotics/util v1.33.1 // latest
+)
+
+require (
+
+	filippo.io/edwards25519 v1.2.0
+	github.com/blang/semver/v4 v4.0.0 // latest
+	github.com/cloudflare/circl v1.6.3
+	github.com/klauspost/compress v1.18.5
+	github.com/mr-tron/base58 v1.3.0
+	github.com/patrickmn/go-cache v2.1.0+incompatible
+	github.com/pion/datachannel v1.6.0
+	github.com/pion/sdp/v3 v3.0.18
+	github.com/pion/webrtc/v4 v4.2.11
+	github.com/pkg/errors v0.9.1
+	github.com/quic-go/quic-go v0.59.0 // latest
+	github.com/sasha-s/go-deadlock v0.3.9
+	github.com/sirupsen/logrus v1.9.5-0.20260309202648-9f0600962f75
+	github.com/zeebo/blake3 v0.2.4
+	golang.org/x/crypto v0.50.0
+	golang.org/x/exp v0.0.0-20250408133849-7e4ce0ab07d0 // indirect
+	gonum.org/v1/gonum v0.17.0
+)
+
+require (
+
+	github.com/aperturerobotics/go-protoc-gen-prost v0.0.0-20260329113538-218ccd8f20e0 // indirect
+	github.com/bwesterb/go-ristretto v1.2.3 // indirect
+	github.com/ghodss/yaml v1.0.0 // indirect
+	github.com/google/uuid v1.6.0 // indirect
+	github.com/ipfs/go-cid v0.0.7 // indirect
 	github.com/klauspost/cpuid/v2 v2.2.10 // indirect
-	github.com/mr-tron/base58 v1.3.0 // indirect
-	github.com/pkg/errors v0.9.1 // indirect
-	github.com/sirupsen/logrus v1.9.5-0.20260309202648-9f0600962f75 // indirect
-	github.com/zeebo/blake3 v0.2.4 // indirect
-	golang.org/x/crypto v0.50.0 // indirect
+	github.com/libp2p/go-buffer-pool v0.1.0 // indirect
+	github.com/libp2p/go-yamux/v4 v4.0.2 // indirect
+	github.com/minio/sha256-simd v1.0.1 // indirect
+	github.com/multiformats/go-base32 v0.1.0 // indirect
+	github.com/multiformats/go-base36 v0.2.0 // indirect
+	github.com/multiformats/go-multibase v0.2.0 // indirect
+	github.com/multiformats/go-multihash v0.2.3 // indirect
+	github.com/multiformats/go-varint v0.0.7 // indirect
+	github.com/oklog/ulid/v2 v2.1.1 // indirect
+	github.com/petermattis/goid v0.0.0-20250813065127-a731cc31b4fe // indirect
+	github.com/pion/dtls/v3 v3.1.2 // indirect
+	github.com/pion/ice/v4 v4.2.2 // indirect
+	github.com/pion/interceptor v0.1.44 // indirect
+	github.com/pion/logging v0.2.4 // indirect
+	github.com/pion/mdns/v2 v2.1.0 // indirect
+	github.com/pion/randutil v0.1.0 // indirect
+	github.com/pion/rtcp v1.2.16 // indirect
+	github.com/pion/rtp v1.10.1 // indirect
+	github.com/pion/sctp v1.9.4 // indirect
+	github.com/pion/srtp/v3 v3.0.10 // indirect
+	github.com/pion/stun/v3 v3.1.1 // indirect
+	github.com/pion/transport/v4 v4.0.1 // indirect
+	github.com/pion/turn/v4 v4.1.4 // indirect
+	github.com/spaolacci/murmur3 v1.1.0 // indirect
+	github.com/tetratelabs/wazero v1.11.0 // indirect
+	github.com/wlynxg/anet v0.0.5 // indirect
+	github.com/xrash/smetrics v0.0.0-20250705151800-55b8f293f342 // indirect
+	golang.org/x/mod v0.35.0 // indirect
+	golang.org/x/net v0.52.0 // indirect
 	golang.org/x/sys v0.43.0 // indirect
+	golang.org/x/time v0.12.0 // indirect
+	gopkg.in/yaml.v2 v2.4.0 // indirect
+	lukechampine.com/blake3 v1.2.1 // indirect
 )
 
 replace github.com/aperturerobotics/bifrost => /repo
